@@ -47,7 +47,7 @@ impl Case {
     pub fn to_json(&self) -> Value {
         json!({
             "sub": self.sub,
-            "types": self.tys.iter().map(|t| json!({"dt": type_to_json(&t.dt), "nullable": t.nullable, "name": t.name})).collect::<Vec<_>>(),
+            "types": self.tys.iter().map(|t| json!({"dt": type_to_json(&t.dt), "nullable": t.nullable, "name": t.name, "family": t.family})).collect::<Vec<_>>(),
             "cols": self.cols.iter().map(|c| vals_json(c)).collect::<Vec<_>>(),
             "cfg": self.cfg.to_json(),
             "cfg_desc": self.cfg.describe(),
@@ -63,7 +63,7 @@ impl Case {
             .iter()
             .map(|t| {
                 let dt = type_from_json(&t["dt"]);
-                Ty { name: t["name"].as_str().unwrap_or("").to_string(), family: String::new(), dt, nullable: t["nullable"].as_bool().unwrap(), core: false }
+                Ty { name: t["name"].as_str().unwrap_or("").to_string(), family: t["family"].as_str().unwrap_or("").to_string(), dt, nullable: t["nullable"].as_bool().unwrap(), core: false }
             })
             .collect();
         Case {
@@ -197,7 +197,6 @@ pub struct Obs {
     pub row_groups: Vec<i64>,
     pub batches: usize,
     pub encodings: String,
-    pub pages: usize,
     pub file_len: usize,
 }
 
@@ -630,7 +629,7 @@ fn history_cols(tys: &[Ty], n: usize, variant: usize) -> Vec<Vec<Val>> {
 }
 /// all histories for n rows: composition of n x subset of flush positions (before the first write,
 /// between writes, after the last) x empty-write insertion {none, first, after first write, last}
-fn histories(n: usize) -> Vec<Vec<Op>> {
+fn histories(n: usize) -> Vec<(Vec<Op>, bool)> {
     let mut out = vec![];
     let comps: Vec<Vec<usize>> = if n == 0 {
         vec![vec![]]
@@ -678,7 +677,7 @@ fn histories(n: usize) -> Vec<Vec<Op>> {
                 if empty == 2 && k == 0 {
                     continue; // same as empty==1 when there is no write
                 }
-                out.push(h);
+                out.push((h, empty != 0));
             }
         }
     }
@@ -715,9 +714,12 @@ fn nth_val(dt: &DataType, k: u64) -> Val {
         Boolean => Val::Bool(k % 2 == 1),
         Int8 => Val::I(((k * 3) % 256) as i128 - 128),
         UInt8 => Val::I(((k * 3) % 256) as i128),
-        Int16 | Int32 | Int64 | Date32 | Time64(_) | Timestamp(_, _) | Duration(_) => Val::I((k as i128) * 3 - 7),
+        Int16 => Val::I(((k as i128) * 3 - 7) as i16 as i128),
+        Int32 | Date32 => Val::I(((k as i128) * 3 - 7) as i32 as i128),
+        Int64 | Time64(_) | Timestamp(_, _) | Duration(_) => Val::I((k as i128) * 3 - 7),
         UInt16 => Val::I(((k * 3) % 65536) as i128),
-        UInt32 | UInt64 => Val::I((k as i128) * 3),
+        UInt32 => Val::I(((k as i128) * 3) as u32 as i128),
+        UInt64 => Val::I((k as i128) * 3),
         Float16 => Val::F16(half::f16::from_f32(k as f32 * 0.5 - 3.0).to_bits()),
         Float32 => Val::F32((k as f32 * 0.5 - 3.0).to_bits()),
         Float64 => Val::F64((k as f64 * 0.25 - 3.0).to_bits()),
@@ -793,6 +795,9 @@ fn long_col(t: &Ty, len: usize, p: Pat) -> Option<Vec<Val>> {
         }
     })
 }
+
+/// indices into long_types() used by the quick tier
+const LONG_QUICK: [usize; 15] = [0, 1, 2, 3, 4, 6, 7, 9, 11, 13, 14, 15, 17, 18, 20];
 
 fn long_types() -> Vec<Ty> {
     use DataType::*;
@@ -907,6 +912,9 @@ pub fn run(ctx: &Ctx) -> ! {
     // ---------------- values: flat + nested types, small alphabet
     let mut tys: Vec<Ty> = flat_types();
     tys.extend(nested_types());
+    if let Some(tf) = ctx.extra_args.iter().find_map(|a| a.strip_prefix("--type=").map(|s| s.to_string())) {
+        tys.retain(|t| t.name.contains(&tf));
+    }
     let mut type_report = vec![];
     if want("values") || want("trees") {
         // acceptance probe: every menu type must be accepted by the writer (guards against a silently vacuous grid)
@@ -916,7 +924,7 @@ pub fn run(ctx: &Ctx) -> ! {
             eval(&case, i as u64, &mut st);
         }
     }
-    let (cap01, cap2, cap3, cap_tree, nmax) = if quick { (160u64, 32u64, 0u64, 450u64, 4usize) } else { (1600, 400, 32, 4000, 5) };
+    let (cap01, cap2, cap3, cap_tree, nmax) = if quick { (160u64, 21u64, 0u64, 450u64, 4usize) } else { (1600, 85, 21, 4000, 5) };
     if want("values") {
         let mut blocks = vec![];
         for (i, t) in tys.iter().enumerate() {
@@ -926,13 +934,16 @@ pub fn run(ctx: &Ctx) -> ! {
             }
             let a = alpha.len() as u64;
             let n01 = best_n(a, nmax, cap01);
-            let n2 = best_n(a, nmax, cap2);
-            let n3 = if cap3 > 0 { best_n(a, nmax, cap3) } else { 0 };
-            type_report.push(json!({"type": t.name, "alphabet": a, "N_at_<=1_deviation": n01, "N_at_2_deviations": n2, "N_at_3_deviations": n3}));
+            // reduced alphabet (<= 4 letters: first, middle, last non-null, Null) for the 2- and 3-deviation blocks
+            let red: Vec<Val> = if alpha.len() <= 4 { alpha.clone() } else { vec![alpha[0].clone(), alpha[alpha.len() / 2].clone(), alpha[alpha.len() - 2].clone(), alpha[alpha.len() - 1].clone()] };
+            let ra = red.len() as u64;
+            let n2 = best_n(ra, nmax, cap2).max(1);
+            let n3 = if cap3 > 0 { best_n(ra, nmax, cap3).max(1) } else { 0 };
+            type_report.push(json!({"type": t.name, "alphabet": a, "N_at_<=1_deviation": n01, "reduced_alphabet": ra, "N_at_2_deviations": n2, "N_at_3_deviations": n3}));
             blocks.push(Block { ty: i, ncols: col_count(a, n01), alpha: alpha.clone(), nmax: n01, cfgs: c01.clone(), skip: None, sub: "values" });
-            blocks.push(Block { ty: i, ncols: col_count(a, n2), alpha: alpha.clone(), nmax: n2, cfgs: c2.clone(), skip: None, sub: "values" });
+            blocks.push(Block { ty: i, ncols: col_count(ra, n2), alpha: red.clone(), nmax: n2, cfgs: c2.clone(), skip: None, sub: "values" });
             if n3 > 0 && !c3.is_empty() {
-                blocks.push(Block { ty: i, ncols: col_count(a, n3), alpha: alpha.clone(), nmax: n3, cfgs: c3.clone(), skip: None, sub: "values" });
+                blocks.push(Block { ty: i, ncols: col_count(ra, n3), alpha: red.clone(), nmax: n3, cfgs: c3.clone(), skip: None, sub: "values" });
             }
         }
         let _ = blocks.iter().map(|b| b.nmax).max();
@@ -974,40 +985,56 @@ pub fn run(ctx: &Ctx) -> ! {
         let mut hc = exactly(0, &hdims);
         hc.extend(exactly(1, &hdims));
         let hc2 = exactly(2, &hdims);
+        // configurations used for the histories that contain an empty write()
+        let hce: Vec<Cfg> = vec![Cfg::default(), Cfg::default().with(D_RG_ROWS, 1), Cfg::default().with(D_RG_ROWS, 2), Cfg::default().with(D_RG_BYTES, 1), Cfg::default().with(D_CDC, 1)];
         let nmax_h = 5usize;
-        let n2max = if quick { 3 } else { 5 };
-        // (n, hist, variant) list
-        let mut items: Vec<(usize, Vec<Op>, bool)> = vec![];
+        let n2max = if quick { 2 } else { 4 };
+        // (n, hist, config class) list; class 0: <=1 deviation, 1: exactly 2 deviations, 2: empty-write set
+        let mut items: Vec<(usize, Vec<Op>, u8)> = vec![];
         for n in 0..=nmax_h {
-            for h in histories(n) {
-                items.push((n, h.clone(), false));
+            for (h, has_empty) in histories(n) {
+                if has_empty && quick {
+                    items.push((n, h, 2));
+                    continue;
+                }
+                items.push((n, h.clone(), 0));
                 if n <= n2max {
-                    items.push((n, h, true));
+                    items.push((n, h, 1));
                 }
             }
         }
         let variants = 2u64;
         let bss = 4u64;
-        let per_item = |two: bool| if two { hc2.len() as u64 } else { hc.len() as u64 };
+        let per_item = |class: u8| match class {
+            0 => hc.len() as u64,
+            1 => hc2.len() as u64,
+            _ => hce.len() as u64,
+        };
         let mut starts = vec![];
         let mut total = 0u64;
         for it in &items {
             starts.push(total);
             total += per_item(it.2) * variants * bss;
         }
-        st.extra.insert("history_bounds".into(), json!({"rows_max": nmax_h, "rows_max_at_2_deviations": n2max, "histories": items.iter().filter(|i| !i.2).count(), "configs_<=1": hc.len(), "configs_2": hc2.len(), "reader_batch_sizes": [1024,1,2,3], "content_variants": 2}));
+        st.extra.insert("history_bounds".into(), json!({"rows_max": nmax_h, "rows_max_at_2_deviations": n2max, "histories": items.iter().filter(|i| i.2 != 1).count(),
+            "configs_<=1": hc.len(), "configs_2": hc2.len(), "configs_for_histories_with_empty_write(quick)": hce.len(), "reader_batch_sizes": [1024,1,2,3], "content_variants": 2,
+            "columns": htys.iter().map(|t| t.name.clone()).collect::<Vec<_>>()}));
         st.merge(par_for(ctx, "history", total, 64, |idx, st| {
             let ii = match starts.binary_search(&idx) {
                 Ok(i) => i,
                 Err(i) => i - 1,
             };
-            let (n, h, two) = &items[ii];
+            let (n, h, class) = &items[ii];
             let mut r = idx - starts[ii];
             let bsi = (r % bss) as usize;
             r /= bss;
             let var = (r % variants) as usize;
             r /= variants;
-            let cfg = if *two { &hc2[r as usize] } else { &hc[r as usize] };
+            let cfg = match class {
+                0 => &hc[r as usize],
+                1 => &hc2[r as usize],
+                _ => &hce[r as usize],
+            };
             let cfg = cfg.with(D_READER_BS, bsi);
             let case = Case { sub: "history".into(), tys: htys.clone(), cols: history_cols(&htys, *n, var), cfg, hist: h.clone(), schedule: None, threads: false };
             st.add("history", 1, if *n > 0 { 1 } else { 0 });
@@ -1023,10 +1050,11 @@ pub fn run(ctx: &Ctx) -> ! {
 
     // ---------------- long structured columns
     if want("long") {
-        let ltys = long_types();
+        let ltys: Vec<Ty> = long_types().into_iter().enumerate().filter(|(i, _)| !quick || LONG_QUICK.contains(i)).map(|(_, t)| t).collect();
         let lens: Vec<usize> = if quick { vec![7, 8, 9, 127, 128, 129, 1023, 1024, 1025] } else { vec![7, 8, 9, 15, 16, 17, 31, 32, 33, 63, 64, 65, 127, 128, 129, 255, 256, 257, 511, 512, 513, 1023, 1024, 1025, 2047, 2048, 2049] };
         let pats = all_pats();
-        // bases that put the interesting encoders in play, then <= 1 further deviation
+        // bases that put each value encoder in play (dictionary, plain, mid-chunk dictionary fallback,
+        // delta family, byte-stream-split family, v2 defaults), then one further deviation
         let bases: Vec<Cfg> = vec![
             Cfg::default(),
             Cfg::default().with(D_DICT, 1),
@@ -1035,40 +1063,55 @@ pub fn run(ctx: &Ctx) -> ! {
             Cfg::default().with(D_DICT, 1).with(D_ENC, 3),
             Cfg::default().with(D_DICT, 1).with(D_VERSION, 1),
         ];
-        let ldims: Vec<usize> = if quick {
-            vec![D_VERSION, D_PAGE_SIZE, D_PAGE_ROWS, D_WBS, D_RG_ROWS, D_READER_BS, D_CDC, D_LAYOUT]
-        } else {
-            all_dims()
-        };
-        let mut lcfgs: Vec<Cfg> = vec![];
-        for b in &bases {
-            let mut push = |c: Cfg| {
-                if !lcfgs.contains(&c) {
-                    lcfgs.push(c)
+        let extra_small: Vec<(usize, usize)> = vec![(D_VERSION, 1), (D_READER_BS, 2), (D_READER_BS, 3), (D_LAYOUT, 1), (D_LAYOUT, 2), (D_CDC, 1), (D_CDC, 2), (D_PAGE_SIZE, 2), (D_WBS, 3), (D_PAGE_ROWS, 3), (D_RG_ROWS, 3), (D_COMPRESSION, 1), (D_COMPRESSION, 6)];
+        let extra_big: Vec<(usize, usize)> = vec![(D_VERSION, 1), (D_READER_BS, 3), (D_LAYOUT, 1), (D_CDC, 2), (D_PAGE_SIZE, 2)];
+        let mk = |extras: &[(usize, usize)]| {
+            let mut v: Vec<Cfg> = vec![];
+            for b in &bases {
+                if !v.contains(b) {
+                    v.push(b.clone());
                 }
-            };
-            push(b.clone());
-            for d in exactly(1, &ldims) {
-                let (dim, ch) = d.0[0];
-                if b.get(dim) == 0 {
-                    // page/row-group limits of 1 on 1000-row columns are covered at value 2/3; keep all
-                    push(b.with(dim, ch));
+                for (d, c) in extras {
+                    if b.get(*d) == 0 {
+                        let x = b.with(*d, *c);
+                        if !v.contains(&x) {
+                            v.push(x);
+                        }
+                    }
+                }
+            }
+            v
+        };
+        let cfg_small = mk(if quick { &extra_small } else { &extra_small });
+        let cfg_big = if quick { mk(&extra_big) } else { mk(&extra_small) };
+        let big_from = 1000usize;
+        let mut items: Vec<(usize, usize, usize)> = vec![]; // (type, len idx, pattern)
+        for ti in 0..ltys.len() {
+            for li in 0..lens.len() {
+                for pi in 0..pats.len() {
+                    items.push((ti, li, pi));
                 }
             }
         }
-        st.extra.insert("long_bounds".into(), json!({"lengths": lens, "patterns": pats.iter().map(|p| format!("{p:?}")).collect::<Vec<_>>(), "types": ltys.iter().map(|t| t.name.clone()).collect::<Vec<_>>(), "configs": lcfgs.len()}));
-        let total = (ltys.len() * lens.len() * pats.len() * lcfgs.len()) as u64;
+        let mut starts = vec![];
+        let mut total = 0u64;
+        for it in &items {
+            starts.push(total);
+            total += if lens[it.1] >= big_from { cfg_big.len() } else { cfg_small.len() } as u64;
+        }
+        st.extra.insert("long_bounds".into(), json!({"lengths": lens, "patterns": pats.iter().map(|p| format!("{p:?}")).collect::<Vec<_>>(), "types": ltys.iter().map(|t| t.name.clone()).collect::<Vec<_>>(),
+            "configs_len<1000": cfg_small.iter().map(|c| c.describe()).collect::<Vec<_>>(), "configs_len>=1000": cfg_big.len()}));
         st.merge(par_for(ctx, "long", total, 8, |idx, st| {
-            let mut r = idx as usize;
-            let ki = r % lcfgs.len();
-            r /= lcfgs.len();
-            let pi = r % pats.len();
-            r /= pats.len();
-            let li = r % lens.len();
-            let ti = r / lens.len();
+            let ii = match starts.binary_search(&idx) {
+                Ok(i) => i,
+                Err(i) => i - 1,
+            };
+            let (ti, li, pi) = items[ii];
+            let ki = (idx - starts[ii]) as usize;
             let t = &ltys[ti];
+            let cfg = if lens[li] >= big_from { &cfg_big[ki] } else { &cfg_small[ki] };
             let Some(vals) = long_col(t, lens[li], pats[pi]) else { return };
-            let case = Case { sub: "long".into(), tys: vec![t.clone()], cols: vec![vals], cfg: lcfgs[ki].clone(), hist: vec![Op::Write(lens[li])], schedule: None, threads: false };
+            let case = Case { sub: "long".into(), tys: vec![t.clone()], cols: vec![vals], cfg: cfg.clone(), hist: vec![Op::Write(lens[li])], schedule: None, threads: false };
             st.add("long", 1, 1);
             if let Some(o) = eval(&case, (2 << 40) + idx, st) {
                 st.outcome(&format!("long|enc={}|rg={}", o.encodings, o.row_groups.len().min(6)));
@@ -1102,6 +1145,9 @@ pub fn run(ctx: &Ctx) -> ! {
                     continue;
                 }
                 for ki in 0..pc.len() {
+                    if mi == 2 && pc[ki].0.len() > 1 {
+                        continue; // the 34650-interleaving mode only at <= 1 deviation
+                    }
                     for ii in 0..scheds[mi].len() {
                         items.push((si, mi, ki, ii));
                     }
@@ -1133,10 +1179,15 @@ pub fn run(ctx: &Ctx) -> ! {
         }));
         // real threads: one OS thread per column under the baton scheduler; all schedules
         let tcfgs: Vec<Cfg> = if quick { vec![Cfg::default(), Cfg::default().with(D_COMPRESSION, 6)] } else { pc.iter().filter(|c| c.0.len() <= 1).cloned().collect() };
+        // quick: all 1680 schedules of mode (a) for the first schema under the default configuration,
+        // all 90 schedules of mode (b) for every schema and both configurations
         let mut titems = vec![];
         for si in 0..schemas.len() {
             for mi in 0..2 {
                 for ki in 0..tcfgs.len() {
+                    if quick && mi == 0 && (si != 0 || ki != 0) {
+                        continue;
+                    }
                     titems.push((si, mi, ki));
                 }
             }
